@@ -15,12 +15,12 @@ MANIFEST = {
 }
 RULE = ("seeded gas / water / heating nets with ConstControl profiles on sinks, sources, heat consumers and on the in_service flag of an island's own feeder (the supplied part changes between steps) over 4-8 steps, some steps made "
         "infeasible, executed in full, as random subsets and in shuffled order, with and without continue_on_divergence, hydraulics and "
-        "sequential mode; non-trivial = series with >= 2 steps compared against stand-alone runs; distinct = case hash")
+        "sequential mode; every eighth case is a multi-energy series (power net + 2-3 gas nets, one P2G coupling each, some gas nets with a profile of their own);  non-trivial = series with >= 2 steps compared against stand-alone runs; distinct = case hash")
 ASSUMPTIONS = ["stand-alone reference = fresh build of the same spec + profile values of that step + the same options"]
 CONFIG = {"quick": {"shards": 8, "timeout_s": 600, "cases": 96},
           "thorough": {"shards": 16, "timeout_s": 3000, "cases": 2400}}
 REQUIRED_COUNTERS = ["steps_compared", "steps_failed_flag_checked", "series_with_infeasible_step", "series_continue_on_divergence",
-                     "series_raise_on_divergence_checked", "series_subset_or_shuffled", "series_thermal", "series_with_feeder_switching", "hook_pipeflow_events"]
+                     "series_raise_on_divergence_checked", "series_subset_or_shuffled", "series_thermal", "series_with_feeder_switching", "series_multi_energy", "steps_compared_multi_energy", "hook_pipeflow_events"]
 _EVENTS = []
 
 
@@ -32,7 +32,105 @@ def worker_init(ctx):
 
 
 def gen_cases(tier, seed):
-    return [{"seed": seed, "i": i, "kind": "heat" if i % 3 == 2 else "hyd"} for i in range(CONFIG[tier]["cases"])]
+    return [{"seed": seed, "i": i, "kind": "multi" if i % 8 == 7 else ("heat" if i % 3 == 2 else "hyd")} for i in range(CONFIG[tier]["cases"])]
+
+
+def run_multi(case):
+    """Multi-energy time series: one power net feeding 2-3 gas nets through one P2G coupling each (the controllers of one level
+    name different nets), some gas nets with a profile of their own; every logged step of every gas net against a stand-alone
+    pipeflow carrying that step's values."""
+    import pandas as pd
+    import pandapipes as pp
+    import pandapower as ppow
+    import pandapower.networks as pn
+    from pandapower.control import ConstControl
+    from pandapower.timeseries import DFData, OutputWriter
+    from pandapipes.multinet.create_multinet import create_empty_multinet, add_net_to_multinet
+    from pandapipes.multinet.control.controller.multinet_control import coupled_p2g_const_control
+    from pandapipes.multinet.timeseries.run_time_series_multinet import run_timeseries as run_multi_series
+    rng = rng_for("C13m", case["seed"], case["i"])
+    obs = Obs()
+    k = int(rng.integers(2, 4))
+    nsteps = int(rng.integers(3, 7))
+    pw = pn.example_simple()
+    mn = create_empty_multinet("c13")
+    add_net_to_multinet(mn, pw, "power")
+    prof = pd.DataFrame({"p%d" % g: rng.uniform(0.02, 0.5, nsteps) for g in range(k)})
+    members = []
+    for g in range(k):
+        spec = netgen.gen_hydraulic(rng, fluid=str(rng.choice(["lgas", "hgas", "methane", "hydrogen"])), features=[(), ("valves",)][int(rng.integers(2))],
+                                    n=int(rng.integers(4, 8)), max_sections=2)
+        net = netgen.build(spec)
+        name = "gas%d" % g
+        add_net_to_multinet(mn, net, name)
+        load = int(ppow.create_load(pw, int(pw.bus.index[2 + g]), p_mw=0.1, scaling=float(rng.choice([1.0, 0.5]))))
+        jsrc = int(net.junction.index[int(rng.integers(1, len(net.junction)))])
+        src = int(pp.create_source(net, jsrc, 0.0, name="ts_src"))
+        eff = float(rng.uniform(0.4, 0.9))
+        _, ctrl = coupled_p2g_const_control(mn, load, src, eff, name_power_net="power", name_gas_net=name, profile_name="p%d" % g, data_source=DFData(prof))
+        own = None
+        if len(net.sink) and rng.random() < 0.5:     # a controller of its own in the gas net
+            sk = int(net.sink.index[0])
+            own = (sk, [float(net.sink.at[sk, "mdot_kg_per_s"] * rng.uniform(0.3, 1.5)) for _ in range(nsteps)])
+            ConstControl(net, element="sink", variable="mdot_kg_per_s", element_index=[sk], profile_name=["own"], data_source=DFData(pd.DataFrame({"own": own[1]})))
+        members.append(dict(name=name, spec=spec, net=net, load=load, src=src, jsrc=jsrc, eff=eff, ctrl=ctrl, own=own))
+    r = rng.random()
+    steps = list(range(nsteps))
+    if r < 0.3:
+        steps = sorted(int(x) for x in rng.choice(nsteps, size=max(2, nsteps // 2), replace=False))
+    elif r < 0.5:
+        steps = [int(x) for x in rng.permutation(nsteps)]
+    logs = [("res_source", "mdot_kg_per_s"), ("res_junction", "p_bar"), ("res_pipe", "mdot_from_kg_per_s"), ("res_ext_grid", "mdot_kg_per_s")]
+    for m in members:
+        m["ow"] = OutputWriter(m["net"], steps, output_path=None, log_variables=logs)
+    OutputWriter(pw, steps, output_path=None, log_variables=[("res_load", "p_mw")])
+    del _EVENTS[:]
+    try:
+        run_multi_series(mn, steps, iter=100, verbose=False)
+    except Exception as e:
+        import traceback
+        fr = traceback.extract_tb(e.__traceback__)
+        where = [f for f in fr if "pandapipes" in f.filename][-1:] or fr[-1:]
+        obs.violate("multi_energy_series_raises", "multi-energy series with %d gas nets (own profiles in %s) raised %s: %s (at %s:%d)"
+                    % (k, [m["name"] for m in members if m["own"]], type(e).__name__, str(e)[:80], where[0].filename.split("/")[-1], where[0].lineno), steps=steps)
+        rec = {"nontrivial": True, "sample": {"case": case, "gas_nets": k, "steps": steps}}
+        rec.update(obs.record())
+        return rec
+    obs.count("hook_pipeflow_events", sum(1 for e in _EVENTS if e == "enter"))
+    obs.count("series_multi_energy")
+    if steps != list(range(nsteps)):
+        obs.count("series_subset_or_shuffled")
+    compared = 0
+    for m in members:
+        for s in steps:
+            want_m = float(prof["p" + m["name"][3:]][s])
+            want_m = want_m * float(pw.load.at[m["load"], "scaling"]) * float(np.ravel(m["ctrl"].conversion_factor_mw_to_kgps())[0]) * m["eff"]
+            ref = netgen.build(m["spec"])
+            pp.create_source(ref, m["jsrc"], want_m, name="ts_src")
+            if m["own"] is not None:
+                ref.sink.at[m["own"][0], "mdot_kg_per_s"] = m["own"][1][s]
+            out, _ = run_pipeflow(ref, {"iter": 100})
+            if out != "ok":
+                obs.count("multi_step_standalone_not_ok")
+                continue
+            compared += 1
+            obs.count("steps_compared")
+            obs.count("steps_compared_multi_energy")
+            for a, b in logs:
+                key = "%s.%s" % (a, b)
+                logged = m["ow"].output[key].loc[s]
+                got = np.array([logged[c] for c in ref[a].index], dtype=float)
+                exp = ref[a][b].values.astype(float)
+                tol = 1e-12 * np.maximum(1.0, np.abs(exp))      # the written source value is a product formed in another order
+                same = (np.isnan(got) & np.isnan(exp)) | (np.abs(got - exp) <= tol)
+                if not same.all():
+                    j = int(np.argmin(same))
+                    obs.violate("step_differs_from_standalone", "multi-energy series, net %s step %d: logged %s[%s]=%r, stand-alone %r (steps %s)"
+                                % (m["name"], s, key, ref[a].index[j], got[j], exp[j], steps), step=s, variable=key, net=m["name"], steps=steps)
+                    break
+    rec = {"nontrivial": compared >= 2, "sample": {"case": case, "gas_nets": k, "steps": steps, "own_profiles": sum(1 for m in members if m["own"])}}
+    rec.update(obs.record())
+    return rec
 
 
 def make(case):
@@ -88,6 +186,8 @@ def run_case(case, ctx):
     from pandapower.timeseries import DFData, OutputWriter
     from pandapipes.timeseries import run_timeseries
     from pandapipes.pf.pipeflow_setup import PipeflowNotConverged
+    if case["kind"] == "multi":
+        return run_multi(case)
     spec, profiles, steps, nsteps, cod, opts, infeasible = make(case)
     obs = Obs()
     net = netgen.build(spec)
